@@ -431,6 +431,25 @@ func corrC13(c *corrCtx) {
 			}
 			check("near-neutral", col, w)
 		}
+		// components that are only just negative (what a float32 matrix product leaves of an exact zero): ratios
+		// -1e-9 .. -1e-5 on one or two axes, the others ordinary
+		for i := 0; i < 90; i++ {
+			col := ciexyz.Color{X: w.X * float32(0.05+1.5*r.f64()), Y: w.Y * float32(0.05+1.5*r.f64()), Z: w.Z * float32(0.05+1.5*r.f64())}
+			tiny := func(wc float32) float32 { return -wc * float32(math.Pow(10, -9+4*r.f64())) }
+			switch i % 5 {
+			case 0:
+				col.X = tiny(w.X)
+			case 1:
+				col.Y = tiny(w.Y)
+			case 2:
+				col.Z = tiny(w.Z)
+			case 3:
+				col.X, col.Z = tiny(w.X), tiny(w.Z)
+			default:
+				col.X, col.Y = tiny(w.X), tiny(w.Y)
+			}
+			check("just-negative", col, w)
+		}
 		// coordinates exactly zero (either sign), one or two at a time, the others free; and exact multiples
 		negz := float32(math.Copysign(0, -1))
 		for i := 0; i < 60; i++ {
